@@ -341,6 +341,16 @@ def corruptions(model, rng, limit):
     out.append(('unreachable.edge-to-tree-node', lambda m: m.nodes.append(mk(n, None, v_to=min(1, n - 1)))))
     out.append(('unreachable.child-wrong-parent', lambda m: m.nodes.extend([mk(n, None, v_to=n + 1), mk(n + 1, None)])))
     out.append(('unreachable.signer-out-of-range', lambda m: m.nodes.append(mk(n, None, signers=[n + 3]))))
+    # orphans: nodes beyond the tree that still carry a Parent element (what is left when an edge is dropped or redirected) - no node
+    # has an edge to them, so they cannot be reached; the rules hold for them and for what hangs below them all the same
+    par = min(1, n - 1)
+    out.append(('unreachable.orphan-ok', lambda m: m.nodes.append(mk(n, par))))
+    out.append(('unreachable.orphan-chain-ok', lambda m: m.nodes.extend([mk(n, par, v_to=n + 1), mk(n + 1, n)])))
+    out.append(('unreachable.orphan-signer-out-of-range', lambda m: m.nodes.append(mk(n, par, signers=[n + 3]))))
+    out.append(('unreachable.orphan-edge-out-of-range', lambda m: m.nodes.append(mk(n, 0, v_to=n + 9))))
+    out.append(('unreachable.orphan-edge-to-tree-node', lambda m: m.nodes.append(mk(n, par, v_to=0))))
+    out.append(('unreachable.orphan-child-signer-out-of-range', lambda m: m.nodes.extend([mk(n, par, v_to=n + 1), mk(n + 1, n, signers=[n + 7])])))
+    out.append(('unreachable.orphan-child-wrong-parent', lambda m: m.nodes.extend([mk(n, par, v_to=n + 1), mk(n + 1, par)])))
     for i in signed[:3]:
         # a signer id beyond the array, and a node beyond the tree that claims this very id
         def mut(m, i=i):
